@@ -225,6 +225,21 @@ func (g *pgen) expr(d int) Expr {
 			e.Pre = g.expr(d - 1)
 		}
 		return e
+	case k == 8 && g.t.Draw(2) == 1:
+		switch g.t.Draw(4) {
+		case 0:
+			g.use("object-literal-operands")
+			return &EObjLit{A: g.expr(d - 1), B: g.expr(d - 1)}
+		case 1:
+			g.use("array-literal-operands")
+			return &EArrLit{A: g.expr(d - 1), B: g.expr(d - 1)}
+		case 2:
+			g.use("property-assignment-rhs")
+			return &EPropSet{E: g.expr(d - 1)}
+		default:
+			g.use("compound-assignment-rhs")
+			return &ECompound{Var: g.scratchVar(), E: g.expr(d - 1)}
+		}
 	case k == 8:
 		g.use("template-literal")
 		return &ETemplate{Parts: []Expr{g.expr(d - 1), g.expr(d - 1)}}
